@@ -1354,8 +1354,10 @@ func (ctx Ctx) exprSpecial(e ast.Expr, isSpecial bool) coq.Expr {
 	case *ast.StarExpr:
 		return ctx.derefExpr(e.X)
 	case *ast.TypeAssertExpr:
-		// TODO: do something with the type
-		return ctx.expr(e.X)
+		// an interface value is the bundle of its methods: the value it was
+		// made from (and its dynamic type) cannot be recovered from it
+		ctx.unsupported(e, "type assertion")
+		return nil
 	case *ast.FuncLit:
 		return ctx.funcLit(e)
 	default:
